@@ -75,7 +75,8 @@ async def extract_tar_stream(
         else:
             # `member.path` is an alias of `member.name` and updates automatically.
             member.name = posixpath.relpath(member.name, posixpath.basename(src))
-            if member.linkname:
+            if member.islnk():
+                # The target of a hard link is the name of another member of the archive.
                 # `member.linkpath` is an alias of `member.linkname` and updates automatically.
                 member.linkname = posixpath.relpath(
                     member.linkname, posixpath.basename(src)
